@@ -197,7 +197,33 @@ def bool_number(ctx, facts, roles, f, cfg):
                         for tr in (True, False):
                             if edge_dominates(b, sb, bool_edge(b, sb, tr), bi) and not edge_dominates(b, sb, bool_edge(b, sb, not tr), bi):
                                 truth = tr
+            if c is None and a[0] == "phi":
+                # one conversion site fed by `if b { 1.0 } else { 0.0 }`: each definition of the number sits under its own edge of the boolean
+                defs_ = b.defs().get(a[1], [])
+                sws = []
+                for sb in b.reachable():
+                    tt = b.blocks[sb]["term"]
+                    if tt["k"] == "SwitchInt" and tt.get("dty") == "bool":
+                        e = strip_refs(b.trace(tt["discr"]))
+                        if e[0] == "field" and e[1][0] == "downcast" and e[1][2] == "Bool":
+                            sws.append(sb)
+                pairs_ = []
+                for d in defs_:
+                    cv = None
+                    if d[0] == "stmt" and d[3]["k"] == "Use" and d[3]["op"]["k"] == "Const":
+                        cv = const_value(d[3]["op"]["const"])
+                    tr = None
+                    for sb in sws:
+                        for t2 in (True, False):
+                            if edge_dominates(b, sb, bool_edge(b, sb, t2), d[1]) and not edge_dominates(b, sb, bool_edge(b, sb, not t2), d[1]):
+                                tr = t2
+                    pairs_.append((tr, cv))
+                n += 1
+                good = len(pairs_) == 2 and sorted(pairs_, key=lambda x: str(x[0])) == [(False, 0.0), (True, 1.0)]
+                ctx.check(good, "K2.true-is-one", "from_f64 site fed by a two-way choice on the boolean (%s)" % cfg,
+                          "a boolean is converted to the number by the choice %s (ECMAScript: true → 1, false → 0)" % pairs_, where=b.where(bi), fn=b.key, nontrivial=True)
+                continue
             n += 1
             ctx.check(truth is not None and c == (1.0 if truth else 0.0), "K2.true-is-one", "from_f64 site bb%d: %s → %s (%s)" % (bi, truth, c, cfg),
                       "a boolean %s is converted to the number %s (ECMAScript: true → 1, false → 0)" % (truth, c), where=b.where(bi), fn=b.key, nontrivial=True)
-    ctx.floor("boolean→number conversion sites (%s)" % cfg, n, 2)
+    ctx.floor("boolean→number conversion sites (%s)" % cfg, n, 1)
